@@ -41,6 +41,12 @@ Example C09_nonvacuous :
   = [false; false; false; true; false].
 Proof. vm_compute. reflexivity. Qed.
 
+(* a request sent to the unspecified ip 0.0.0.0 (a local node's own report of its address) is answered from whatever ip
+   the host gave that socket: there the port alone decides *)
+Theorem C09_unspecified_destination_port_only : forall port from, addr_match (0, port) from = (port =? snd from).
+Proof. exact unspecified_destination_port_only. Qed.
+
+Print Assumptions C09_unspecified_destination_port_only.
 Print Assumptions C09_expected_iff_tid_and_address.
 Print Assumptions C09_fresh_request_only_from_its_destination.
 Print Assumptions C09_consumed_at_most_once.
